@@ -67,3 +67,7 @@ package vars
 //@ func NewBuffer assumed "sync.Pool: returns a pooled or new *bytes.Buffer, exclusively owned"
 //@   ensures result != nil && fresh(result)
 //@ func FreeBuffer assumed "sync.Pool.Put: the buffer is handed back; no effect visible to the caller"
+
+// C10: the encoder's argument pointer bitmap is the pointer map of the Encoder signature.
+//@ datainv argptrs_encoder props C10: len(initval(ArgPtrs)) == argwords(Encoder) && (forall i int :: (0 <= i && i < argwords(Encoder)) ==> initval(ArgPtrs)[i] == ptrword(Encoder, i))
+//@ datainv localptrs_encoder props C10: len(initval(LocalPtrs)) == 0 && len(initval(LocalPtrs_generic)) == 0 && len(initval(ArgPtrs_generic)) == 1 && initval(ArgPtrs_generic)[0] == true
